@@ -102,7 +102,7 @@ def coq_make(targets=None, timeout=1500):
     return rc == 0, (o + e)[-6000:]
 
 
-REGENERATED = ("Properties_serial.v", "Properties_poolskel.v")   # depend on gen/*.v regenerated from /repo on every run: handled by serial_side
+REGENERATED = ("Properties_serial.v", "Properties_poolskel.v", "Properties_probe.v")   # depend on gen/*.v regenerated from /repo on every run: handled by serial_side
 
 
 def serial_side(run, pid):
@@ -180,6 +180,66 @@ def poolskel_side(run, pid):
         run.trusted = list(run.trusted) + ["tools/translate_pool.py (token-level extraction of lock/wait/notify/shared-access events from Worker.hpp and the block constructor)"]
         bad = [n for n in mine if n in failed] + [f for f in failed if not re.match(r"C\d\d_", f)]
         return (not bad), bad, dict(res)
+    finally:
+        shutil.rmtree(work, ignore_errors=True)
+        fcntl.flock(lockf, fcntl.LOCK_UN)
+        lockf.close()
+
+
+def probe_side(run, pid):
+    """Regenerate gen/Probe_gen.v (integer widths of the double-hashing probe arithmetic, tools/translate_probe.py, clang typed AST)
+    from /repo's current source and re-check Properties_probe.v against it.  Returns (ok, failed_names, sites)."""
+    import fcntl, translate_probe
+    translate_probe.REPO = REPO
+    lockf = open("/var/tmp/verif_probe.lock", "w")
+    fcntl.flock(lockf, fcntl.LOCK_EX)
+    work = tempfile.mkdtemp(prefix="probe.", dir="/var/tmp")
+    failed, log = [], ""
+    try:
+        sites, problems = translate_probe.translate()
+        os.makedirs(os.path.join(work, "gen"), exist_ok=True)
+        translate_probe.emit(sites, os.path.join(work, "gen", "Probe_gen.v"))
+        coq_make(["theories/ProbeWidths.vo"])
+        shutil.copy(os.path.join(COQ, "theories", "ProbeWidths.vo"), work)
+        rc, o, e = sh("timeout 200 coqc -Q . LibCSD gen/Probe_gen.v", cwd=work, timeout=230)
+        if rc != 0 or problems:
+            failed.append("Probe_gen(translator)")
+            log = (o + e)[-1500:] + " problems=%s" % problems
+        src = open(os.path.join(COQ, "theories", "Properties_probe.v")).read().split("\n")
+        names = re.findall(r"(?m)^Theorem\s+(\w+)", "\n".join(src))
+        for _ in range(8):
+            if failed and failed[0].startswith("Probe_gen"):
+                break
+            open(os.path.join(work, "Properties_probe.v"), "w").write("\n".join(src))
+            rc, o, e = sh("timeout 200 coqc -Q . LibCSD Properties_probe.v", cwd=work, timeout=230)
+            if rc == 0:
+                break
+            m = re.search(r"line (\d+), characters", o + e)
+            if not m:
+                failed.append("Properties_probe(unlocated)")
+                log += (o + e)[-1000:]
+                break
+            line = int(m.group(1)) - 1
+            starts = [i for i, l in enumerate(src) if l.startswith("Theorem ")]
+            st = max([i for i in starts if i <= line] or [0])
+            nm = re.match(r"Theorem\s+(\w+)", src[st]).group(1) if src[st].startswith("Theorem") else "Properties_probe(header)"
+            failed.append(nm)
+            log += "FAILED %s: %s\n" % (nm, " ".join((o + e).split())[-300:])
+            if nm.endswith("(header)"):
+                break
+            # an obligation that fails is admitted by removal so that the later ones are still checked; theorems that USE it fail too
+            en = min([i for i in starts if i > st] + [len(src)])
+            src[st:en] = ["(* removed %s *)" % nm]
+        mine = [n for n in names if n.startswith(pid + "_")]
+        structural = [f for f in failed if not re.match(r"C\d\d_", f)]
+        for n in mine:
+            run.oblige("regenerated obligation %s (probe arithmetic widths of the current source)" % n, n not in failed and not structural,
+                       "" if n not in failed else "no longer checks against the widths read from the current source")
+        run.extra["probe_check"] = {"failed": failed, "sites": [[nm, [list(x) for x in acc]] for nm, acc in sites], "log_tail": log[-1200:]}
+        run.trusted = list(run.trusted) + ["tools/translate_probe.py (clang 14 typed AST: result types of the arithmetic nodes left of `% tsize`); "
+                                           "hypothesis tsize < 2^32 of probe_exact (tables of fewer than 2^32 cells)"]
+        bad = [n for n in failed if re.match(r"C\d\d_", n)] + structural    # any failing width obligation concerns every hashing property
+        return (not bad), bad, sites
     finally:
         shutil.rmtree(work, ignore_errors=True)
         fcntl.flock(lockf, fcntl.LOCK_UN)
